@@ -282,26 +282,44 @@ def fn_ctor_histories(items):
         ghz = np.zeros((d, d), dtype=complex)
         ghz[0, 0] = ghz[0, d - 1] = ghz[d - 1, 0] = ghz[d - 1, d - 1] = 0.5
         gX = [1, 0] + [0, 1] * (N - 1)          # X Z Z ...
-        ctors = {'zero_state': lambda: mod.zero_state(N), 'one_state': lambda: mod.one_state(N),
-                 'maximally_mixed_state': lambda: mod.maximally_mixed_state(N), 'identity_map': lambda: mod.identity_map(N),
+        # identity_map first: the very first object a constructor hands out in a process may be the cached master itself
+        ctors = {'identity_map': lambda: mod.identity_map(N), 'zero_state': lambda: mod.zero_state(N), 'one_state': lambda: mod.one_state(N),
+                 'maximally_mixed_state': lambda: mod.maximally_mixed_state(N),
                  'identity_map.to_state': lambda: mod.identity_map(N).to_state()}
+        ghz_strs = ['I' * k + 'ZZ' + 'I' * (N - 2 - k) for k in range(N - 1)] + ['X' * N]
         if N >= 2:
             ctors['ghz_state'] = lambda: mod.ghz_state(N)
-        if hasattr(mod, 'clifford_rotation_map'):
+            ctors['stabilizer_state(strings)'] = lambda: mod.stabilizer_state(*ghz_strs)
+            ctors['stabilizer_state(paulis)'] = lambda: mod.stabilizer_state(mod.paulis(*ghz_strs))
+        if hasattr(mod, 'clifford_rotation_map') and N <= 3:
             ctors['clifford_rotation_map'] = lambda: mod.clifford_rotation_map(P(gX, 2))
+        # parsed operators are sources of edits too (a memoised parse handing out its arrays shows up in the string constructors)
+        sources = dict(ctors)
+        if N >= 2:
+            for k_, s_ in enumerate(ghz_strs[:3]):
+                sources['pauli(%r)' % s_] = (lambda s_=s_: mod.pauli(s_))
+            sources['paulis(strings)'] = lambda: mod.paulis(*ghz_strs)
         want_state = {'zero_state': (basis_proj([0] * N), 0), 'one_state': (basis_proj([1] * N), 0), 'maximally_mixed_state': (np.eye(d) / d, N),
-                      'ghz_state': (ghz, 0), 'identity_map.to_state': (basis_proj([0] * N), 0)}
+                      'ghz_state': (ghz, 0), 'identity_map.to_state': (basis_proj([0] * N), 0),
+                      'stabilizer_state(strings)': (ghz, 0), 'stabilizer_state(paulis)': (ghz, 0)}
         rot_ref = ref.map_perm  # noqa (kept for readers: rotation maps are compared with the first pristine call below)
 
         def arrays(o):
             return (lib.t2n(o.gs).copy(), lib.t2n(o.ps).copy() % 4, int(getattr(o, 'r', 0)))
         pristine = {}
-        for nm, mk in ctors.items():
-            pristine[nm] = arrays(mk())
+        if 'clifford_rotation_map' in ctors:       # reference rows of the rotation map: U^dag X_i U, U^dag Z_i U by the exactly signed rule
+            from .c02 import ref_rotate
+            eg, ep, _ = ref_rotate(np.array(gX), 2, np.eye(2 * N, dtype=np.int64), np.zeros(2 * N, dtype=np.int64))
+            pristine['clifford_rotation_map'] = (eg, ep % 4, 0)
 
         def judge(nm, after):
-            o = ctors[nm]()
-            gs, ps, r = arrays(o)
+            try:
+                o = ctors[nm]()
+                gs, ps, r = arrays(o)
+            except Exception as e:
+                viol.append(V('C12/history/%s/%s/raises-%s' % (nm.split('.')[0], pkg, type(e).__name__), [N, pkg],
+                              '%s: %s(%d) called after %s raised %s: %s' % (pkg, nm, N, after, type(e).__name__, str(e)[:160])))
+                return False
             if nm in want_state:
                 bad = ref.tableau_invariant(gs, ps, r)
                 ok = (not bad) and r == want_state[nm][1] and np.allclose(ref.rho(gs, ps, r), want_state[nm][0])
@@ -323,17 +341,22 @@ def fn_ctor_histories(items):
                  ('transform_by-mask', lambda o: o.transform_by(CM(t1, s1), mask=mk_mask())),
                  ('embed', lambda o: o.embed(CM(t1, s1), mk_mask()) if hasattr(o, 'embed') and not hasattr(o, 'r') else 'skip'),
                  ('array-write', None)]
-        for src in ctors:
-            for enm, ed in edits:
-                first = ctors[src]()
+        def arrays_of(o):
+            return (o.g, o.p) if hasattr(o, 'g') else (o.gs, o.ps)
+        for src in sources:
+            for enm, ed in (edits[3:] + edits[:3] if src == 'identity_map' else edits):     # embed first for the first identity map of the process
+                first = sources[src]()
                 try:
                     if ed is None:
+                        ag, ap = arrays_of(first)
                         if py:
-                            first.gs[...] = 1 - first.gs
-                            first.ps[...] = (first.ps + 1) % 4
+                            ag[...] = 1 - ag
+                            if isinstance(ap, np.ndarray):
+                                ap[...] = (ap + 1) % 4
                         else:
-                            first.gs.copy_(1 - first.gs)
-                            first.ps.copy_((first.ps + 1) % 4)
+                            ag.copy_(1 - ag)
+                            if hasattr(ap, 'copy_') and ap.dim() > 0:
+                                ap.copy_((ap + 1) % 4)
                     elif ed(first) == 'skip':
                         continue
                 except Exception:
@@ -409,7 +432,13 @@ def fn_stabstate(items):
                             ('strings', lambda: lib.pc.stabilizer_state(*strs)),
                             ('codes', lambda: lib.pc.stabilizer_state(codes)))
                 else:
-                    fmts = (('PauliList', lambda: lib.torch_mods()['tc'].stabilizer_state(lib.tPL(gsL, list(signs)))),)
+                    tcm = lib.torch_mods()
+                    toks = [[int('IXYZ'.index(ch)) for ch in ref.g_to_str(g)] + [5 if s else 4] for g, s in zip(gsL, signs)]
+                    fmts = (('PauliList', lambda: tcm['tc'].stabilizer_state(lib.tPL(gsL, list(signs)))),
+                            ('strings', lambda: tcm['tc'].stabilizer_state(*strs)),
+                            ('codes', lambda: tcm['tc'].stabilizer_state(codes)),
+                            ('token-table-tensor', lambda: tcm['tc'].stabilizer_state(tcm['torch'].tensor(toks))),
+                            ('tokenize-roundtrip', lambda: tcm['tc'].stabilizer_state(lib.tPL(gsL, list(signs)).tokenize())))
                 for fname, mk in fmts:
                     try:
                         st = mk()
@@ -491,8 +520,8 @@ def legs(tier):
         stab.tableaux(N)
     out.append(Leg('to_qutip', fn_qutip, [[1, i] for i in range(48)] + [[2, i] for i in range(0, 34560, 1 if tier != 'quick' else 5)], chunk=200,
                    bound='to_qutip of %s tableaux N<=2' % ('all' if tier != 'quick' else 'every 5th of the 34560 + all 48')))
-    out.append(Leg('ctor_histories', fn_ctor_histories, [[N, pkg] for pkg in ('py', 'torch') for N in (1, 2, 3)], chunk=1,
-                   bound='N<=3, both packages: every constructor result edited in place (global / masked rotate_by, masked transform_by, embed, direct array write), then every constructor called again'))
+    out.append(Leg('ctor_histories', fn_ctor_histories, [[N, pkg] for pkg in ('py', 'torch') for N in (5, 4, 1, 2, 3)], chunk=1,
+                   bound='N<=5, both packages: every constructor result and every parsed operator edited in place (global / masked rotate_by, masked transform_by, embed, direct array write), then every constructor called again'))
     reps2 = stab.representatives(2, 0)
     out.append(Leg('to_qutip_histories', fn_qutip_histories, [[1, i] for i in range(48)] + [[2, i] for i in (reps2 if tier == 'quick' else range(0, 34560, 7))], chunk=8,
                    bound='export -> sign-only operation (every Pauli gate, a rotation applied twice, nothing) or a rotation -> export again on one object: all N=1 tableaux, %s' % ('one N=2 tableau per density matrix (91)' if tier == 'quick' else 'every 7th N=2 tableau')))
